@@ -25,7 +25,7 @@ pk="./dataset/ ./ddsketch/ ./ddsketch/encoding/ ./ddsketch/mapping/ ./ddsketch/s
 if git diff --name-only | grep -q 'ddsketch/store/\|ddsketch/encoding/'; then pk="$pk ./ddsketch/store/"; fi
 timeout 2400 go test -vet=off -count=1 -timeout 35m $pk > $res/$pref$prop-$n.suite.log 2>&1; rc_suite=$?
 cd /verif
-VERIF_BUDGET_S=300 timeout 2400 ./check $prop -no-evidence -repo $wt > $res/$pref$prop-$n.check.out 2>&1; rc=$?
+if [ -n "${SKIPCHECK:-}" ]; then rc=-1; echo skipped > $res/$pref$prop-$n.check.out; else VERIF_BUDGET_S=300 timeout 2400 ./check $prop -no-evidence -repo $wt > $res/$pref$prop-$n.check.out 2>&1; rc=$?; fi
 v=$(grep -m1 -A1 '^VIOLATION' $res/$pref$prop-$n.check.out | tail -1 | sed 's/^ *//' | cut -c1-160)
 python3 - "$pref$prop" "$n" "$rc_build" "$rc_without" "$rc_with" "$rc_suite" "$pk" "$rc" "$v" <<'P'
 import sys,json
